@@ -102,6 +102,17 @@ def stimuli(tier, seed, ctx):
                 cfg['exit'][s_] = cfg['exit'][s_] or rnd.choice([1, 2, 3])
                 cfg['xchain'][s_] = True
         seq = c03._rand_seq(rnd, cfg, rnd.randint(2, 10))
+        if rnd.random() < 0.5:
+            # a certain intermediate state: entered by Goto, leaves by a chained Goto, its exit
+            # action sends an event to the FSM
+            s_ = rnd.randint(1, nn)
+            cfg['enter'][s_ - 1] = rnd.choice([1, 2, 3])
+            cfg['exit'][s_ - 1] = rnd.choice([1, 2, 3])
+            cfg['chain'][s_ - 1] = {'on': True, 'goto': rnd.choice([x for x in range(1, nn + 1) if x != s_]),
+                                    'e': 1, 'tag': 8, 'prop': 0, 'double': False}
+            cfg['xchain'][s_ - 1] = True
+            seq.insert(rnd.randint(0, len(seq)), {'goto': s_, 'e': 0, 'd': {
+                'tag': 4, 'chain': 1, 'cond': 1, 'condf': 1, 'xc': 1}})
         for ev_ in seq:
             if rnd.random() < 0.5:
                 ev_['d'].update(chain=1, xc=1)
